@@ -199,7 +199,13 @@ impl Scope {
                 if *calls_until_ext_bitfield == 0 {
                     if bits.with_read_position_at(*ext_bit_pos, |b| b.read_bit())? {
                         let read_number_of_ext_fields =
-                            bits.read_normally_small_length()? as usize + 1;
+                            usize::try_from(bits.read_normally_small_length()?)
+                                .ok()
+                                .and_then(|n| n.checked_add(1))
+                                .ok_or(ErrorKind::ValueExceedsMaxInt)?;
+                        if bits.remaining() < read_number_of_ext_fields {
+                            return Err(ErrorKind::EndOfStream.into());
+                        }
                         if read_number_of_ext_fields > *number_of_ext_fields {
                             #[cfg(feature = "descriptive-deserialize-errors")]
                             descriptions.push(ScopeDescription::warning(
